@@ -23,7 +23,10 @@ import (
 // C12 — no aliasing between caller data and library buffers.
 
 func init() {
-	work.Register("C12", "c12.histories", c12Histories)
+	work.Register("C12", "c12.histories", func(c *work.Ctx) { c12Histories(c, false) })
+	// C07's clause "writes only inside the object graph rooted at the destination": the same histories, judged
+	// only by what happened to the bystanders (earlier decoded values, caller buffers)
+	work.Register("C07", "c07.bystanders", func(c *work.Ctx) { c12Histories(c, true) })
 }
 
 // retaining callbacks: they keep the very slice they are handed
@@ -34,6 +37,11 @@ func (k *c12KeepJ) UnmarshalJSON(b []byte) error { k.B = b; return nil }
 type c12KeepT struct{ B []byte }
 
 func (k *c12KeepT) UnmarshalText(b []byte) error { k.B = b; return nil }
+
+// c12Window's MarshalJSON returns a window of somebody else's buffer (spare capacity = live data behind it).
+type c12Window struct{ b []byte }
+
+func (w c12Window) MarshalJSON() ([]byte, error) { return w.b, nil }
 
 type c12S struct {
 	A string          `json:"a"`
@@ -81,7 +89,7 @@ func (w *c12World) input(s string) []byte {
 	// spare capacity, as a caller's reused buffer would have
 	b = append(make([]byte, 0, len(b)+16), b...)
 	w.inputs = append(w.inputs, b)
-	w.inSnap = append(w.inSnap, s)
+	w.inSnap = append(w.inSnap, string(b[:cap(b)])) // the spare capacity is the caller's too
 	return b
 }
 
@@ -100,7 +108,10 @@ func (w *c12World) out(b []byte) {
 // check verifies that nothing the caller owns has changed behind its back.
 func (w *c12World) check() (what, detail string) {
 	for i, b := range w.inputs {
-		if string(b) != w.inSnap[i] {
+		if full := b[:cap(b)]; string(full) != w.inSnap[i] {
+			if string(b) == w.inSnap[i][:len(b)] {
+				return "caller buffer modified behind the input", fmt.Sprintf("the %d spare bytes behind input #%d are now %q", cap(b)-len(b), i, clip(full[len(b):]))
+			}
 			return "caller input modified", fmt.Sprintf("input #%d is now %q, was %q", i, clip(b), clip([]byte(w.inSnap[i])))
 		}
 	}
@@ -253,6 +264,55 @@ func c12Calls() []c12Call {
 			w.out(b)
 			return string(b) + errS(err)
 		}},
+		{"Path.Extract", func(w *c12World) string {
+			p, err := json.CreatePath("$.a.b")
+			if err != nil {
+				return "path error"
+			}
+			parts, err := p.Extract(w.input(`{"a":{"b":"extracted \"part\" number one","c":1},"z":"tail"}`))
+			for _, part := range parts {
+				w.out(part)
+			}
+			return fmt.Sprintf("%q", parts) + errS(err)
+		}},
+		{"Path.Unmarshal", func(w *c12World) string {
+			p, err := json.CreatePath("$.a")
+			if err != nil {
+				return "path error"
+			}
+			var v interface{}
+			err = p.Unmarshal(w.input(`{"a":{"b":"path string\n","c":[1,"x"]}}`), &v)
+			w.keep("value decoded through a Path", &v)
+			return fmt.Sprint(v) + errS(err)
+		}},
+		{"Marshal(RawMessages that are adjacent windows of one caller buffer)", func(w *c12World) string {
+			// RawMessage.MarshalJSON returns the receiver: slices with spare capacity whose next byte is live caller data
+			buf := w.input(`{"a":1}[2,3]"x"`)
+			v := struct{ A, B, C json.RawMessage }{buf[0:7], buf[7:12], buf[12:15]}
+			b, err := json.Marshal(v)
+			w.out(b)
+			return string(b) + errS(err)
+		}},
+		{"Encoder+indent(marshaler returning a window of a live caller buffer)", func(w *c12World) string {
+			buf := w.input(`[1,2]{"k":"v"}`)
+			var out bytes.Buffer
+			en := json.NewEncoder(&out)
+			en.SetIndent("", " ")
+			err := en.Encode([]interface{}{c12Window{buf[0:5]}, c12Window{buf[5:14]}, json.RawMessage(buf[0:5])})
+			b := out.Bytes()
+			w.out(b)
+			return string(b) + errS(err)
+		}},
+		{"Unmarshal(40 KiB input with spare capacity)", func(w *c12World) string {
+			var s struct {
+				A     string   `json:"a"`
+				Items []string `json:"items"`
+			}
+			doc := `{"a":"escaped \"first\" string\n","items":["` + strings.Repeat(`item-0123456789","`, 2400) + `last"]}`
+			err := json.Unmarshal(w.input(doc), &s)
+			w.keep("struct decoded from a 40 KiB input", &s)
+			return fmt.Sprintf("%q %d %x", s.A, len(s.Items), fnvHash([]byte(strings.Join(s.Items, ",")))) + errS(err)
+		}},
 		{"caller overwrites every input passed so far", func(w *c12World) string {
 			for i, b := range w.inputs {
 				if w.decSrc != nil && w.decSrc.Len() > 0 && strings.HasPrefix(w.inSnap[i], `{"a":"first`) {
@@ -261,7 +321,7 @@ func c12Calls() []c12Call {
 				for j := range b {
 					b[j] = 0xEE
 				}
-				w.inSnap[i] = string(b)
+				w.inSnap[i] = string(b[:cap(b)])
 			}
 			return "done"
 		}},
@@ -278,7 +338,7 @@ func c12Calls() []c12Call {
 	}
 }
 
-func c12Histories(c *work.Ctx) {
+func c12Histories(c *work.Ctx, bystandersOnly bool) {
 	calls := c12Calls()
 	depth := 3
 	if !c.Quick() {
@@ -350,7 +410,7 @@ func c12Histories(c *work.Ctx) {
 						if isStream {
 							streamCalls[k]++
 						}
-						if (!isStream || streamCalls[k] == 1) && got != cold[k] {
+						if !bystandersOnly && (!isStream || streamCalls[k] == 1) && got != cold[k] {
 							c.Violation(fmt.Sprintf("result differs from the cold result : [%s]", calls[k].name), id+fmt.Sprintf(" pool choices %v", ch.Choices()),
 								fmt.Sprintf("step %d gives %s ; cold %s", step, clip([]byte(got)), clip([]byte(cold[k]))))
 							break
